@@ -235,6 +235,59 @@ def memo_rules(index: RepoIndex, rep, rule: str, eff, only_rel=None) -> None:
 
 
 
+def shared_class_attributes(index: RepoIndex, rep, rule: str, only=None) -> None:
+    """a class-level attribute bound to a mutable display (`colors: Set[Color] = {Color.NONE}`)
+    is one object for all instances: a method that updates it in place through `self`
+    (`self.colors |= ..`, `self.items.append(..)`) without ever assigning the attribute on the
+    instance makes every instance -- every space, every environment -- share and grow it"""
+    n = 0
+    for mod in index.modules.values():
+        if not mod.relpath.startswith('gym_gridverse/'):
+            continue
+        for c in mod.classes.values():
+            if only is not None and c.name not in only:
+                continue
+            shared = {}
+            for st in c.node.body:
+                tg = st.target if isinstance(st, ast.AnnAssign) else (
+                    st.targets[0] if isinstance(st, ast.Assign) and len(st.targets) == 1
+                    else None)
+                v = getattr(st, 'value', None)
+                if isinstance(tg, ast.Name) and isinstance(
+                        v, (ast.Set, ast.List, ast.Dict, ast.ListComp, ast.SetComp,
+                            ast.DictComp)) or (
+                        isinstance(tg, ast.Name) and isinstance(v, ast.Call) and
+                        src(v.func) in ('set', 'list', 'dict')):
+                    shared[tg.id] = st
+            for attr, st in sorted(shared.items()):
+                n += 1
+                assigned = False
+                updates = []
+                for m in c.methods.values():
+                    for x in ast.walk(m.node):
+                        if isinstance(x, (ast.Assign, ast.AnnAssign)):
+                            tgs = x.targets if isinstance(x, ast.Assign) else [x.target]
+                            if any(src(t) == f'self.{attr}' for t in tgs):
+                                assigned = True
+                        if isinstance(x, ast.AugAssign) and src(x.target) == f'self.{attr}':
+                            updates.append(x)
+                        if isinstance(x, ast.Call) and isinstance(x.func, ast.Attribute) and \
+                                src(x.func.value) == f'self.{attr}' and x.func.attr in (
+                                    'add', 'update', 'append', 'extend', 'insert', 'remove',
+                                    'discard', 'pop', 'clear', 'setdefault', '__setitem__'):
+                            updates.append(x)
+                bad = updates if not assigned else []
+                rep.check(not bad, rule, mod.relpath, f'{c.name}.{attr}', st.lineno,
+                          src(st)[:100],
+                          f'`{c.name}.{attr}` is a class-level {type(st.value).__name__.lower()} '
+                          f'updated in place through self (line '
+                          f'{bad[0].lineno if bad else 0}: `{src(bad[0])[:60] if bad else ""}`) '
+                          f'and never assigned on the instance: all {c.name} objects share it, '
+                          f'so what one declares leaks into the others',
+                          f'{c.name}.{attr} not shared between instances')
+    rep.holds(rule, 'class-level mutable attributes', f'{n} checked')
+
+
 def shared_mutable_constants(index: RepoIndex, rep, rule: str) -> None:
     """a module-level object of a mutable class of the package (Transform, Agent, Grid, State,
     a grid object) is only ever *read through* (`_TOP_LEFT.position`): when the object itself
@@ -530,6 +583,7 @@ def run(index: RepoIndex, rep) -> None:
 
     one_object_per_cell(index, rep, 'C03.R8')
     shared_mutable_constants(index, rep, 'C03.R8')
+    shared_class_attributes(index, rep, 'C03.R8')
     # a composite keeps its parts between calls: they are a list, not an iterator a call consumes
     rep.rule('C03.R9', 'what a configured composite keeps between calls is not consumed by a '
              'call: its parts are materialised, one per configured entry (C17.R6)', floor=3)
